@@ -110,8 +110,9 @@ func (g *GenOpts) analyzeSpec() (*loads.Document, *analysis.Spec, error) {
 
 	// spec preprocessing option
 	if g.PropertiesSpecOrder {
-		g.Spec = WithAutoXOrder(g.Spec)
-		specDoc, err = loads.Spec(g.Spec)
+		// the re-ordered copy lives in a temporary directory: g.Spec keeps naming the user's document,
+		// since it is rendered into generated code (go:generate comment)
+		specDoc, err = loads.Spec(WithAutoXOrder(g.Spec))
 		if err != nil {
 			return nil, nil, err
 		}
